@@ -160,6 +160,18 @@ def run_path(h, cfg):
                 h.require('psi(x)=sum Pk x^k', True)
             else:
                 h.record_failure('psi(x)=sum Pk x^k', {'got': show(vx)}, odex.model_values(m))
+            # a second distribution on the SAME degrees with other proportions: the helpers describe the distribution they are given
+            Qk = {k: eng.real('Q%d' % k, lo=0) for k in Pk}
+            if Qk:
+                psi2, psiP2 = an.get_PGF(Qk), an.get_PGFPrime(Qk)
+                prover2 = odex.IdProver(list(eng.pc))
+                for nm, got, want in (('psi(x)=sum Pk x^k', psi2(x), sum((Qk[k] * x ** k for k in Qk), 0)),
+                                      ("psi'(1)", psiP2(1), sum((k * Qk[k] for k in Qk), 0))):
+                    ok, m = prover2.equal(got, want)
+                    if ok:
+                        h.require(nm, True)
+                    else:
+                        h.record_failure(nm, {'call': 'second distribution on the same degrees', 'got': show(got)[:200], 'want': show(want)[:200]}, odex.model_values(m))
         finally:
             eng.div_guard = True
         return {'K': K}
@@ -310,6 +322,18 @@ def replay_concrete(cfg, kind, values, decisions):
                     continue
                 if abs(got - ref(y, d)) > 1e-9 * max(1, abs(got)):
                     det['%s(%s)' % (nm, y)] = [got, float(ref(y, d))]
+        # second distribution on the same degrees
+        Qk = {k: values.get('Q%d' % k, 0.05 * (K + 2 - k)) for k in range(K + 1)}
+        try:
+            psi2, psiP2 = an.get_PGF(Qk), an.get_PGFPrime(Qk)
+            g1, w1 = float(psi2(x)), sum(Qk[k] * x ** k for k in Qk)
+            g2, w2 = float(psiP2(1.0)), sum(k * Qk[k] for k in Qk)
+            if abs(g1 - w1) > 1e-9 * max(1, abs(g1)):
+                det['second distribution psi(x)'] = [g1, w1]
+            if abs(g2 - w2) > 1e-9 * max(1, abs(g2)):
+                det["second distribution psi'(1)"] = [g2, w2]
+        except Exception as e:
+            det['second distribution'] = repr(e)[:100]
         return {'reproduced': bool(det), 'concrete_detail': det}
     if fam == 'graph-edited':
         G = nx.Graph()
